@@ -254,7 +254,7 @@ func VerifC19_names() {
 	}
 	style := string(bs)
 	prefixed := false
-	if k >= 5 && vfChoice("prefix", 2) == 1 {
+	if vfChoice("prefix", 2) == 1 {
 		style = "texttable." + style
 		prefixed = true
 	}
@@ -265,6 +265,17 @@ func VerifC19_names() {
 	}
 	w := New(style)
 	vfSmall(w)
+	if prefixed && k < 5 {
+		// the first section selects the text renderer; what follows names a decoration, and no
+		// decoration is registered under a renderer's name (in any letter case): rendering fails
+		tt, ok := w.(*texttable.TextTable)
+		vfAssert(ok, "texttable-prefix-selects-text-renderer")
+		if ok {
+			out, err := tt.Render()
+			vfAssert(vfAnd(err != nil, out == ""), "unknown-name-fails-to-render")
+		}
+		return
+	}
 	switch k {
 	case 0:
 		_, ok := w.(*csv.CSVTable)
